@@ -373,6 +373,22 @@ func discoverNames(l *Loaded) *renameSet {
 		}
 		return nil
 	}
+	// a helper over one reference: function f(ref) or method ref.f()
+	refHelper := func(fs []*types.Func, res func(types.Type) bool) *types.Func {
+		for _, f := range fs {
+			sg := sigOf(f)
+			if sg == nil || sg.Results().Len() != 1 || !res(sg.Results().At(0).Type()) {
+				continue
+			}
+			if sg.Recv() == nil && sg.Params().Len() == 1 && sameNamed(sg.Params().At(0).Type(), refT) {
+				return f
+			}
+			if sg.Recv() != nil && sg.Params().Len() == 0 && sameNamed(sg.Recv().Type(), refT) {
+				return f
+			}
+		}
+		return nil
+	}
 	isSeq := func(t types.Type) bool {
 		_, ok := t.Underlying().(*types.Signature)
 		return ok
@@ -415,11 +431,12 @@ func discoverNames(l *Loaded) *renameSet {
 		extreme := func(s *types.Signature) bool {
 			return s.Params().Len() == 1 && sameNamed(s.Params().At(0).Type(), refT) && s.Results().Len() == 1 && isUnsafePointer(s.Results().At(0).Type())
 		}
+		_ = extreme
 		if f := method(tk, "Minimum"); f != nil {
-			rs.add(byResult(calleesOf(f), extreme), "minimum")
+			rs.add(refHelper(calleesOf(f), isUnsafePointer), "minimum")
 		}
 		if f := method(tk, "Maximum"); f != nil {
-			rs.add(byResult(calleesOf(f), extreme), "maximum")
+			rs.add(refHelper(calleesOf(f), isUnsafePointer), "maximum")
 		}
 		// restoreKey: the unexported method taking the leaf pointer
 		for _, mf := range methodsOf(tk) {
